@@ -109,6 +109,7 @@ struct transform_ptr {
 
 	// constexpr auto functor() const -> UF {return f_;}
 	constexpr auto base() const -> Ptr const& {return p_;}
+	constexpr explicit operator bool() const { return static_cast<bool>(p_); }  // a transform_ptr is null exactly when the pointer it wraps is
 	constexpr auto operator*() const -> reference {  // NOLINT(readability-const-return-type) in case synthesis reference is a `T const`
 		// invoke allows for example to use .transformed( &member) instead of .transformed( std::mem_fn(&member) )
 		return std::invoke(f_, *p_);  // NOLINT(readability-const-return-type) in case synthesis reference is a `T const`
